@@ -13,6 +13,10 @@ Engine P.  Sections:
   non-reflections      conjugates of rotations, identity, loxodromics, parabolic (H^2), rotary and glide
                        reflections (also by 1e-3) are rejected with GeometryError; conjugators up to distance 5; every
                        one also as Isometry(c * matrix), c in {-1, 2, 0.5, -3} (keys .../rescaled-matrix)
+  reflection-batches   arrays (shapes (1,), (2,), (3,), (2,2), (1,3)) of isometries mixing reflections across near walls, across far
+                       walls (distance 3, 5, 7) and at most one non-reflection, in every position, members also as c * matrix: an
+                       array containing a non-reflection is rejected whatever its neighbours are; arrays of reflections give back
+                       every wall
   coxeter-reflections  generators of hyperbolic_rep() of triangle groups (and rank-4 simplex groups) and their
                        conjugates by powers of the Coxeter element: from_reflection / reflection_across round trip
   fixed-points         g h g^-1, g = origin_to(p) for every lattice point p, h standard rotation (angles down to
@@ -404,6 +408,140 @@ def case_nonreflection(case):
     return {"v": v, "t": 2, "o": ("%s|H%d|%s%srejected" % (kind, n, "far|" if far else "", "" if c == 1.0 else "x%g|" % c)) if not v else "accepted", "nt": kind != "identity"}
 
 
+def case_reflection_batch(case):
+    import warnings
+    with warnings.catch_warnings(), np.errstate(all="ignore"):
+        warnings.simplefilter("ignore")
+        return _case_reflection_batch(case)
+
+
+def _case_reflection_batch(case):
+    """A composite Isometry whose members are reflections (across near and far walls) and non-reflections, each given by
+    c * matrix: from_reflection decides member by member - one non-reflection anywhere in the array and the array is
+    rejected, whatever its neighbours are; an array of reflections gives back every wall."""
+    from geometry_tools import hyperbolic as H
+    from geometry_tools import GeometryError
+    n, shape, members = case["n"], tuple(case["shape"]), case["members"]
+    n1 = n + 1
+    mats, names, t = [], [], 0
+    for m in members:
+        c = float(m.get("scale", 1.0))
+        if m["type"] == "refl":
+            w = np.array(m["normal"], dtype=float)
+            M = np.array(H.Hyperplane(w.copy()).reflection_across().proj_data, dtype=float)
+            Mo = reflection_matrix(w)
+            # precondition (decided by section reflections-H<n>): the member is the reflection in w
+            if M.shape != (n1, n1) or not _finite(M) or not float(np.max(np.abs(M - Mo))) <= 1e-9 * (1.0 + float(np.max(np.abs(Mo))) ** 2):
+                return {"v": [], "t": t + 2, "o": "member-not-a-reflection (section reflections)", "nt": False}
+            names.append("%g * reflection in %s" % (c, _f(w)))
+            t += 2
+        else:
+            iso = _conj(H, n, m["g"], _standard(H, n, m["kind"], m["param"]))
+            M = np.array(iso.proj_data, dtype=float)
+            names.append("%g * [%s(%s) conjugated by origin_to(%s)]" % (c, m["kind"], m["param"], _f(m["g"])))
+            t += 4
+        mats.append(c * M)
+    bad = [m for m in members if m["type"] != "refl"]
+    far = any(m["type"] == "refl" and _far_tag({"normals": [m["normal"]]}) for m in members)
+    scaled = any(float(m.get("scale", 1.0)) != 1.0 for m in members)
+    suffix = ("/far-member" if far else "") + ("/rescaled-matrix" if scaled else "")
+    tag = "Isometry array of shape %s in H^%d with members [%s]" % (shape, n, "; ".join(names))
+    arr = np.array(mats).reshape(shape + (n1, n1))
+    v = []
+    forms = [("isometry", H.Isometry(arr.copy())), ("ndarray", arr.copy())]
+    if bad:
+        kind = bad[0]["kind"]
+        for how, arg in forms:
+            try:
+                h = H.Hyperplane.from_reflection(arg)
+                v.append(_V("from_reflection/composite/accepts-non-reflection/%s%s" % (kind, suffix),
+                            "%s (given as %s): Hyperplane.from_reflection returned a hyperplane array of shape %r instead of raising GeometryError"
+                            % (tag, how, np.shape(h.proj_data))))
+            except GeometryError:
+                pass
+            t += 1
+        if n == 2:
+            try:
+                g = H.Geodesic.from_reflection(forms[0][1])
+                v.append(_V("from_reflection/composite/geodesic-accepts-non-reflection/%s%s" % (kind, suffix),
+                            "%s: Geodesic.from_reflection returned an array of shape %r instead of raising GeometryError" % (tag, np.shape(g.proj_data))))
+            except GeometryError:
+                pass
+            t += 1
+        o = "%s|H%d|%s|pos%s|%s%s%s" % (kind, n, "x".join(map(str, shape)), [i for i, m in enumerate(members) if m["type"] != "refl"],
+                                      "far|" if far else "", "scaled|" if scaled else "", "rejected" if not v else "accepted")
+        return {"v": v, "t": t, "o": o, "nt": True}
+    # control: every member is a reflection - accepted, and every wall comes back
+    ws = [np.array(m["normal"], dtype=float) for m in members]
+    for how, arg in forms:
+        try:
+            h = H.Hyperplane.from_reflection(arg)
+        except GeometryError as e:
+            v.append(_V("from_reflection/composite/rejects-reflection" + suffix, "%s (given as %s): from_reflection raises GeometryError: %s" % (tag, how, e)))
+            break
+        t += 1
+        pd = np.asarray(h.proj_data, dtype=float)
+        if pd.shape != shape + (n1, n1):
+            v.append(_V("from_reflection/composite/shape", "%s (given as %s): hyperplane data of shape %r" % (tag, how, pd.shape)))
+            break
+        pd = pd.reshape((len(ws), n1, n1))
+        for w, p in zip(ws, pd):
+            prob = wall_problem(p, w, "from_reflection")
+            if prob and not v:
+                v.append(_V(prob[0] if "null-kernel" in prob[0] else "from_reflection/composite/" + prob[0].split("/")[-1] + suffix,
+                            "%s (given as %s), member with normal %s: %s" % (tag, how, _f(w), prob[1])))
+    o = "all-reflections|H%d|%s|%s%s%s" % (n, "x".join(map(str, shape)), "far|" if far else "", "scaled|" if scaled else "", "ok" if not v else "bad")
+    return {"v": v, "t": t, "o": o, "nt": True}
+
+
+BATCH_SCALES = [1.0, -1.0, 2.0, 0.5, -3.0]       # 1 and REFLECTION_MATRIX_SCALES
+
+
+def reflection_batch_cases(seed):
+    """Arrays of isometries mixing reflections across near walls, reflections across far walls (distance 3, 5, 7: matrices
+    of norm up to 6e5) and at most one non-reflection, the non-reflection in every position of the array."""
+    L = len(BATCH_SCALES)
+    k = 0
+
+    def scaled(members):
+        # member i of the k-th case is given by BATCH_SCALES[(k + i) % L] * matrix on every second case, by its matrix otherwise
+        nonlocal k
+        k += 1
+        if k % 2:
+            return members
+        return [dict(m, scale=BATCH_SCALES[(k // 2 + i) % L]) for i, m in enumerate(members)]
+
+    for n in (2, 3, 4):
+        std, close = _nonreflection_kinds(n)
+        near = lattice_normals(n, LATTICE3) + generic_normals(n, 6, seed)
+        far = far_normals(n, seed)
+        P = _points(n, True, seed)
+        G = [P[1], P[len(P) // 2], P[-1]]
+        R = lambda w: {"type": "refl", "normal": w}
+        j = 0
+        for kind, param in std + close:
+            for g in G:
+                x = {"type": "iso", "g": g, "kind": kind, "param": param}
+                for i, f in enumerate(far):
+                    j += 1
+                    a, b, f2 = near[j % len(near)], near[(3 * j + 1) % len(near)], far[(i + 6) % len(far)]
+                    for shape, members in (([2], [R(f), x]), ([2], [x, R(f)]), ([3], [R(a), x, R(f)]), ([3], [R(f), R(a), x]),
+                                           ([2, 2], [R(f), R(a), x, R(f2)]), ([1, 3], [x, R(f2), R(f)])):
+                        yield {"n": n, "shape": shape, "members": scaled(members)}
+                # arrays of moderate matrices only
+                for i in range(3):
+                    j += 1
+                    a, b = near[j % len(near)], near[(3 * j + 1) % len(near)]
+                    for shape, members in (([1], [x]), ([2], [R(a), x]), ([3], [x, R(a), R(b)]), ([2, 2], [R(a), R(b), R(a), x])):
+                        yield {"n": n, "shape": shape, "members": scaled(members)}
+        # controls: reflections only
+        for i, f in enumerate(far):
+            a, b, f2 = near[i % len(near)], near[(3 * i + 1) % len(near)], far[(i + 6) % len(far)]
+            for shape, members in (([2], [R(f), R(a)]), ([3], [R(a), R(f2), R(f)]), ([2, 2], [R(f), R(a), R(b), R(f2)]), ([1, 3], [R(b), R(f), R(a)])):
+                for _ in range(2):
+                    yield {"n": n, "shape": shape, "members": scaled(members)}
+
+
 def case_coxeter(case):
     from geometry_tools import hyperbolic as H
     from geometry_tools import coxeter
@@ -725,17 +863,22 @@ def _points(n, q, seed):
     return [list(map(float, p)) for p in lattice.klein_points(n, m_generic=6 if q else (200 if DEEP else 40), seed=seed, rmax=0.9 if q else 0.97)]
 
 
+def _nonreflection_kinds(n):
+    std = [("identity", 0)] + [("rotation", a) for a in ANGLES] + [("loxodromic", l) for l in LOX]
+    std += [("glide", l) for l in (2.0, 0.5)]
+    if n == 2:
+        std.append(("parabolic", 1))
+    else:
+        std += [("rotoreflection", a) for a in ANGLES[:2]]
+    # non-reflections that are close to a reflection: a glide reflection of translation length 1e-3, a rotary
+    # reflection by 1e-3 rad (they differ from every reflection by 1e-3)
+    near = [("glide", 1.001)] + ([("rotoreflection", 1e-3)] if n >= 3 else [])
+    return std, near
+
+
 def nonreflection_cases(q, seed):
     for n in (2, 3, 4):
-        std = [("identity", 0)] + [("rotation", a) for a in ANGLES] + [("loxodromic", l) for l in LOX]
-        std += [("glide", l) for l in (2.0, 0.5)]
-        if n == 2:
-            std.append(("parabolic", 1))
-        else:
-            std += [("rotoreflection", a) for a in ANGLES[:2]]
-        # non-reflections that are close to a reflection: a glide reflection of translation length 1e-3, a rotary
-        # reflection by 1e-3 rad (they differ from every reflection by 1e-3)
-        near = [("glide", 1.001)] + ([("rotoreflection", 1e-3)] if n >= 3 else [])
+        std, near = _nonreflection_kinds(n)
         L = len(REFLECTION_MATRIX_SCALES)
         for g in _points(n, q, seed):
             for kind, param in std + near:
@@ -1187,6 +1330,8 @@ def run(ctx):
                "lambda in %s (a normal is a homogeneous vector; being spacelike does not depend on its scale)" % NORMAL_SCALES)
     ctx.assume("far walls: unit normals (sinh D, cosh D d), D in %s (reflection matrices of norm cosh 2D <= 6e5); non-reflections are conjugated by "
                "isometries moving the origin by at most 5 (beyond that the eigenvalues of a matrix of norm e^2D no longer separate a rotation from a reflection)" % FAR_DISTANCES)
+    ctx.assume("reflection batches: the members of an array are judged one by one - the array is rejected iff one member, taken alone, is a non-reflection "
+               "(members: the reflections and non-reflections of the single-object sections, which decide them alone; non-reflections conjugated by |k| <= 0.9)")
     ctx.assume("a bare ndarray handed to from_reflection means Isometry(ndarray) (a matrix acting on row vectors, like every other array in the library)")
     ctx.assume("rescaled matrices c * A, c in %s, are the same isometry (projective map, property C12); rotation angles >= 1e-7" % MATRIX_SCALES)
     ctx.assume("from_reflection: Isometry(c * M), c in %s, is the isometry of M: the wall of a rescaled reflection comes back, a rescaled non-reflection is rejected" % REFLECTION_MATRIX_SCALES)
@@ -1225,6 +1370,17 @@ def run(ctx):
                     domains={"n": [2, 3, 4], "angles": ANGLES, "multipliers": LOX, "kinds": ["identity", "rotation", "loxodromic", "parabolic(n=2)", "rotoreflection(n>=3)", "glide"],
                              "near-reflections": "glide(1.001), rotoreflection(1e-3)", "far conjugators": "3 generic directions at distance 3 and 5 (keys .../far-conjugate)",
                              "matrix scales": "1 and each of %s (far conjugators: 1 and one of them, round-robin); keys .../rescaled-matrix" % REFLECTION_MATRIX_SCALES})
+    if want("reflection-batches"):
+        ctx.product("reflection-batches", "checks.c15:case_reflection_batch", list(reflection_batch_cases(seed)), chunk=32,
+                    domains={"n": [2, 3, 4], "array shapes": [[1], [2], [3], [2, 2], [1, 3]],
+                             "members": "reflections across near walls (lattice %s + 6 generic normals), across far walls (distance %s, 5 directions), and at most one "
+                                        "non-reflection: every kind of section non-reflections (incl. glide(1.001), rotoreflection(1e-3)) conjugated by origin_to of 3 lattice points"
+                                        % (LATTICE3, FAR_DISTANCES),
+                             "position of the non-reflection": "first, middle, last (before / after / between near and far reflections)",
+                             "matrix scales": "every second case: member i given by c * matrix, c round-robin over %s" % BATCH_SCALES,
+                             "argument": ["Isometry(array)", "bare ndarray"],
+                             "demanded": "an array containing a non-reflection is rejected (GeometryError) whatever its neighbours; an array of reflections "
+                                         "(controls) gives back every wall, member by member"})
     if want("coxeter-reflections"):
         ctx.product("coxeter-reflections", "checks.c15:case_coxeter", list(coxeter_cases(q)), chunk=2,
                     domains={"triangle groups": "quick: 7 triples, all orders; thorough: all hyperbolic (p,q,r) with entries <= 8", "rank 4": "linear diagrams [3,5,3] [5,3,4] [4,3,5] [5,3,5]",
